@@ -101,6 +101,13 @@ def r06_4(run):
     valid = [n for n, s in cfgg.stmt.items() if cfgg.label[n] == "If" and "_view_grad.base is self._base._grad" in norm(s).replace("(", "").replace(")", "")]
     run.ob("R06.4", loc(g, g.node), g.short, "cached view gradient is validated by base identity with the base's current gradient", bool(valid),
            "`self._view_grad.base is self._base._grad`" if valid else "a stale cached view-gradient can be returned after the base's gradient changed")
+    rets_vg = [n for n, s in cfgg.stmt.items() if isinstance(s, ast.Return) and s.value is not None and norm(s.value) == "self._view_grad"]
+    stores_vg = {n for n, s in cfgg.stmt.items() if isinstance(s, ast.Assign) and any(norm(t) == "self._view_grad" for t in s.targets)}
+    for rn in rets_vg:
+        ok = cfgg.set_dominates(stores_vg, rn) or any(cfgg.edge_dominates(t, "true", rn) for t in valid)
+        run.ob("R06.5", loc(g, cfgg.stmt[rn]), g.short, "a cached view gradient is returned only after the base-identity validation (or right after it was recomputed)", ok,
+               "return is edge-dominated by the validation test / dominated by a fresh store" if ok else
+               "an unvalidated cached view gradient can be returned: stale .grad on a view after its base received a new gradient")
     base_ret = [n for n, s in cfgg.stmt.items() if cfgg.label[n] == "If" and norm(s) in ("self._base is None", "self.base is None")]
     ok = False
     for t in base_ret:
@@ -142,6 +149,7 @@ def check(run):
     run.rule("R06.1", "clear_graph: on the view path a read of self.grad dominates `self._creator = None`", floor=2)
     run.rule("R06.2", "every function nulling _grad nulls _view_grad on the same paths", floor=3)
     run.rule("R06.3", "= R12.3 (engine-owned, distinct gradient storage) -- decided under C12", floor=0)
+    run.rule("R06.5", "Tensor.grad returns the cached view gradient only validated or freshly recomputed", floor=2)
     run.rule("R06.4", "the first contribution stored into var._grad has var.data's memory layout; Tensor.grad replays the view op, "
              "untracked, and validates its cache by base identity", floor=4)
     r06_1(run)
